@@ -284,3 +284,24 @@ PROPS['C16'] = dict(
     outside='NOT CLAIMED: independence of module vs GOPATH vs vendor resolution, checkout location, invocation directory/pattern and co-processed packages — that is go list / go/packages behaviour which cannot be encoded; only the un-vendoring of paths and the absence of absolute paths in the frame are covered',
     assumptions=COMMON_ASSUME + ['map iteration order is the only source of nondeterminism inside Wire (no time, randomness or environment reads in internal/wire besides go/packages)'],
 )
+
+
+INTERP_TYPES = ['go/types', 'golang.org/x/tools/go/types/typeutil', 'errors', 'go/token', 'go/ast', 'go/constant', 'sort', 'math/bits', 'sync', 'sync/atomic', 'golang.org/x/tools/go/ast/astutil']
+
+
+def tspec(entry, **params):
+    return spec(entry, params=params, label='%s%s' % (entry, params or ''), interp=INTERP_TYPES, init=['go/types'])
+
+
+PROPS['C20'] = dict(
+    level=MC,
+    quick=[tspec('H_zero'), tspec('H_recog_struct', maxform=6), tspec('H_recog_bind', maxform=3), tspec('H_recog_fieldsof', maxform=4), tspec('H_recog_expr')],
+    thorough=[tspec('H_zero'), tspec('H_recog_struct'), tspec('H_recog_bind'), tspec('H_recog_fieldsof'), tspec('H_recog_expr'), sideb(['reject', 'values'])],
+    covers={'H_zero': ['zero'], 'H_recog_struct': ['struct-accepted', 'struct-refused'], 'H_recog_bind': ['bind-accepted', 'bind-refused'],
+            'H_recog_fieldsof': ['fieldsof-accepted', 'fieldsof-refused'], 'H_recog_expr': ['expr-accepted', 'expr-refused']},
+    panic_props=['C20'],
+    bounds_text='marker calls built from real go/ast nodes and real go/types objects (go/types\' own init is interpreted): first arguments written as new(T), new(pkg.T), &T{}, a pointer variable, (*T)(nil), (new(T)), pkg.Var, with T a named struct, pointer to struct, interface, named int, anonymous struct, instantiated-generic-like index expression; 0..3 arguments; field names as literals, "*", unknown names, constants, concatenations; wire.Bind with and without dot import; wire.Build arguments of every object kind (provider-set variable with any ValueSpec shape names<=2/values<=2, nil, true, function, constant, struct literal, other composite literal, calls, conversions, literals, unknown marker), parenthesised or not; zeroValue for every typed basic kind and every composite kind, named or not',
+    outside='positions are opaque (that they lie inside the user\'s sources is not checked); crashes inside go/packages / go/types; expression forms beyond the listed ones',
+    assumptions=['types.Info is built by the harness for each shape (Types, Uses); every shape is type-correct Go by construction of the table', 'objectCache.varDecl is a stub returning a declaration of symbolic shape',
+                 'fmt / token.FileSet.Position text is opaque'],
+)
